@@ -92,6 +92,14 @@ def option_list(m, mode):
 
 def build_ts(m):
     tc = m.tables()
+    # attributes that tree access does not depend on, varied deterministically over the members
+    k = (m.N + m.G + sum(m.flags) + len(m.edges())) % 3
+    if k == 1:
+        tc.time_units = "uncalibrated"
+        tc.metadata = b"top"
+    elif k == 2:
+        tc.time_units = "ticks"
+        tc.reference_sequence.data = "ACGT"
     c = m.coords
     pos = []
     for i in range(m.G):
